@@ -313,22 +313,26 @@ pub fn check_last_step<T: LabelType>(
         let rf_before = rf.clone();
         let exp_ok = rf.apply(op);
         let got = apply_real(&mut af, labels, op);
-        if last {
-            let h = &hist[..=i];
-            match got {
-                Err(p) => return Err(violation(kind, &labels_desc, init, h, "panic", format!("operation panicked: {}", p))),
-                Ok(ok) => {
-                    if ok != exp_ok {
-                        return Err(violation(kind, &labels_desc, init, h, if exp_ok { "valid_update_rejected" } else { "invalid_update_accepted" }, format!("operation returned {}, reference {}", if ok { "Ok" } else { "Err" }, if exp_ok { "Ok" } else { "Err" })));
-                    }
+        let h = &hist[..=i];
+        match got {
+            Err(p) => return Err(violation(kind, &labels_desc, init, h, "panic", format!("operation panicked: {}", p))),
+            Ok(ok) => {
+                if ok != exp_ok {
+                    return Err(violation(kind, &labels_desc, init, h, if exp_ok { "valid_update_rejected" } else { "invalid_update_accepted" }, format!("operation returned {}, reference {}", if ok { "Ok" } else { "Err" }, if exp_ok { "Ok" } else { "Err" })));
+                }
+                if last {
                     let after = canon(&af);
                     if (!exp_ok || rf == rf_before) && Some(&after) != before.as_ref() {
                         return Err(violation(kind, &labels_desc, init, h, "state_changed_by_rejected_or_redundant_update", format!("concrete state changed: before {} after {}", before.unwrap(), after)));
                     }
-                    if let Err(m) = observe(&af, labels, &rf) {
-                        return Err(violation(kind, &labels_desc, init, h, "observation_differs", m));
-                    }
-                    return Ok(after);
+                }
+                // every observer is called after EVERY step (not only the last one), so that an
+                // observer with a hidden memo that an update forgets to invalidate is exposed
+                if let Err(m) = observe(&af, labels, &rf) {
+                    return Err(violation(kind, &labels_desc, init, h, if last { "observation_differs" } else { "observation_differs_after_earlier_observations" }, m));
+                }
+                if last {
+                    return Ok(canon(&af));
                 }
             }
         }
